@@ -15,7 +15,10 @@ import (
 
 //vp:all model github.com/google/uuid.New = vpmUUIDNew
 
-func vpmUUIDNew() uuid.UUID { return uuid.UUID{} }
+var vpUUIDCtr byte
+
+// distinct ids, as uuid.New gives (the value itself is irrelevant)
+func vpmUUIDNew() uuid.UUID { vpUUIDCtr++; return uuid.UUID{vpUUIDCtr} }
 
 // vpTransport implements transport.Transport: scripted reads, recorded writes.
 type vpTransport struct {
@@ -26,6 +29,7 @@ type vpTransport struct {
 	nread  int
 	gen    func(i int) []byte // lazy script: packet i is created when it is read
 	ngen   int
+	accepts, drains, ncloses int
 }
 
 func (t *vpTransport) ReadPacket() (int, []byte, error) {
@@ -55,6 +59,7 @@ func (t *vpTransport) WritePacket(b []byte) (int, error) {
 
 func (t *vpTransport) Close() error {
 	t.closed = true
+	t.ncloses++
 	return nil
 }
 
@@ -78,8 +83,8 @@ func (c *vpConn) Read(b []byte) (int, error) {
 		return 0, vpErrClosed
 	}
 	if c.rpos >= len(c.reads) {
-		if c.block && !vpSymbolic() {
-			select {} // quiet backend: the relay goroutine just waits
+		if c.block {
+			vpBlockForever() // quiet backend that is never closed: the relay goroutine waits forever
 		}
 		return 0, vpErrEOF
 	}
